@@ -7,6 +7,7 @@ import json, struct
 from ..vlib import leanlib, cbuild, judge
 from ..gen import g_dec
 from . import _cred_common as cc
+from . import _c08_fd
 
 LEVEL = "proof"
 LENS = [0, 1, 2 ** 31 - 1, 2 ** 31, 2 ** 32 - 1]
@@ -254,6 +255,9 @@ def run(ctx):
     ctx.assumptions += ["memory safety, leak-freedom and liveness of the C are established by the sanitizers on the explored inputs, not proved",
                         "OpenSSL / zlib / bzlib internals are outside; stalls (I/O timeout) are exercised in the thorough tier only"]
     g_dec.generate(ctx)
+    # "... nor wedge the daemon": the timed I/O routines of fd.c under scripted poll/read/write/clock (model + theorems + stream)
+    if _c08_fd.run_fd(ctx):
+        return
     if ctx.replay_in:
         rep = json.load(open(ctx.replay_in))
         drv = leanlib.driver(ctx); h = cc.build_toy(ctx)
